@@ -18,7 +18,7 @@ from ..ref import fv
 from . import _simcases as S
 
 RULE = (
-    "case = one undriven run (irregular/smoothed/holed meshes, unbiased terminals left unpinned, gamma in {0,0.1,1,10}, u in "
+    "case = one undriven run (irregular/smoothed/holed meshes, unbiased terminals left unpinned, gamma in {0,1e-4,1e-3,1e-2,0.1,1,10}, u in "
     "{1,5.79}, adaptive on/off, screening on/off) with dt_max drawn as a fraction (0.2..0.9) of the mesh's explicit stability "
     "bound, or with the default dt_max above the bound; non-trivial = >= 30 steps checked; distinct = distinct spec"
 )
@@ -35,7 +35,8 @@ def gen_cases(tier, seed):
         scr = (k % 6 == 5)
         nt = int([0, 2, 0, 3][k % 4])
         dev = zoo.gen_device(rng, n_terminals=nt, n_holes=int(k % 3 == 1 and nt == 0), probes=0, size="tiny" if scr else str(rng.choice(["small", "medium"])),
-                             film_kind=None if nt == 0 else "box", smooth=int(rng.choice([0, 1, 10, 100])))
+                             film_kind=None if nt == 0 else "box", smooth=int(rng.choice([0, 1, 10, 100])),
+                             gamma=float([10.0, 1e-3, 0.0, 1.0, 1e-4, 0.1, 1e-2][k % 7]))
         regime = "stable" if k % 5 != 4 else "above_bound"
         o = dict(adaptive=bool(k % 3 != 2), dt_init=1e-4, save_every=20, field_units="mT", current_units="uA", output="file",
                  terminal_psi="none" if nt else 0.0, adaptive_window=int(rng.choice([2, 5, 10])))
@@ -75,7 +76,10 @@ def run_case(spec):
     V = []
     C = dict(mon.C)
     exc = rr.exception
-    if exc is not None and not (spec["regime"] == "above_bound" and isinstance(exc, RuntimeError)):
+    if exc is not None and spec["regime"] == "stable" and isinstance(exc, RuntimeError) and "converge" in str(exc):
+        # nothing drives this run and the step is inside the stability bound: giving up is not stationarity
+        V.append({"kind": "undriven_run_fails", "mechanism": "undriven_run_fails_to_converge", "detail": {"error": str(exc)[:200], "steps_done": C.get("steps_checked", 0)}})
+    elif exc is not None and not (spec["regime"] == "above_bound" and isinstance(exc, RuntimeError)):
         rr.cleanup()
         return {"status": "harness_error", "error": "undriven run raised: " + repr(exc)[:300]}
     fd = mon.first_dev
